@@ -11,7 +11,8 @@ RULE = ("cases = (tauEnergy, etau_frac) through the real Taus.__call__ (energies
         "versions 1-3 plus synthetic energies down to the tau mass) and (beta, tauBeta, tauLorentz, u) through the real "
         "EAS.altDec with explicit u; streams: structured, boundary (u in {denormal, 1-ulp, 1}, beta in {0, 42 deg, pi/2}, "
         "E at m_tau*(1+ulp)); a case is non-trivial when its (rounded) inputs are distinct and the output is not a default")
-ASSUMPTIONS = ["float tauBeta may round to exactly 1.0 for gamma > ~1e8: accepted (the theorem speed_in_unit is over the reals)"]
+ASSUMPTIONS = ["a Taus object reads etau_frac from the configuration it was built from when it is called (reconfiguring and reusing the object is checked)",
+               "float tauBeta may round to exactly 1.0 for gamma > ~1e8: accepted (the theorem speed_in_unit is over the reals)"]
 
 
 def _objects():
@@ -86,9 +87,25 @@ def run(ctx: Ctx):
                     ctx.violation("Taus.__call__", "shower-energy", "shower energy != frac*E/1e8", case)
                 elif not close(tb[i] ** 2 + 1.0 / tl[i] ** 2, 1.0, 1e-12):
                     ctx.violation("Taus.__call__", "speed-formula", "beta^2 + 1/gamma^2 != 1", case)
-                elif te[i] < 3000.0 and betas[i] <= tau.tau_cdf_grid["beta_rad"][-1]:
-                    ctx.violation("Taus.__call__", "E<3TeV", "sampled tau energy below 3 TeV", case)
+                elif te[i] < 1000.0 and betas[i] <= tau.tau_cdf_grid["beta_rad"][-1]:
+                    # C18.shipped_min_tau_energy_v*: impossible for the modelled sampler on the shipped tables
+                    ctx.disagree("C07.min-energy-theorem", {**case, "theorem": "C18.shipped_min_tau_energy_v" + ver})
             ctx.count(f"taus_v{ver}", n)
+            # history on ONE object: the fraction in force is the one configured when the call is made
+            for frac2 in (1.0, 0.25, float(rng.uniform(0.01, 1.0)), frac):
+                cfg.simulation.tau_shower.etau_frac = frac2
+                b2 = np.radians(rng.uniform(0.5, 41.0, 16)); l2 = rng.uniform(6.0, 12.0, 16)
+                _, tl2, te2, se2, _ = tau(b2, l2)
+                ctx.case(("hist", ver, frac2), None)
+                ctx.count("taus_history_calls")
+                bad = np.nonzero(~np.isclose(se2 * 1e8, frac2 * te2, rtol=1e-12, atol=0))[0]
+                if len(bad):
+                    k_ = int(bad[0])
+                    ctx.violation("Taus.__call__", "shower-energy-after-reconfiguration",
+                                  "shower energy is not the currently configured fraction of the tau energy on a reused Taus object",
+                                  {"version": ver, "etau_frac_sequence_so_far": [frac, frac2], "etau_frac": frac2, "tauEnergy": float(te2[k_]),
+                                   "showerEnergy": float(se2[k_]), "ratio": float(se2[k_] * 1e8 / te2[k_])})
+                    break
     # ---- EAS.altDec with explicit u
     cfg = nss.NssConfig()
     eas = EAS(cfg)
